@@ -119,6 +119,7 @@ type pipeline struct {
 	lastUp   string
 	store    *memStore
 	cacheCfg config.CacheConfig
+	srv      interface{ Update(server.ServerOption) } // the running server behind the handler chain
 }
 
 var pipeSeq int
@@ -169,6 +170,7 @@ func newPipeline(cacheSize int, hitForPass string, withStore bool, srvOpt server
 		srvOpt.Cache = "c1"
 	}
 	s := server.NewServer(srvOpt)
+	p.srv = s
 	e := elton.New()
 	e.Use(middleware.NewDefaultError())
 	e.Use(middleware.NewDefaultFresh())
